@@ -27,744 +27,747 @@ var evC17 = ev.New("C17", "declared value lists of 1..300 values (sizes biased t
 
 func enumValue(i int) string { return fmt.Sprintf("v%03d", i) }
 
-func TestC17(t *testing.T) {
-	rapid.Check(t, func(t *rapid.T) {
-		size := rapid.SampledFrom([]int{1, 2, 3, 5, 17, 63, 64, 65, 100, 127, 128, 129, 191, 192, 193, 250, 254, 255, 256, 257, 300}).Draw(t, "size")
-		declared := rapid.IntRange(0, 3).Draw(t, "declared") > 0
-		// the cardinality limit of derived enums on every construction path: exactly 254..257 distinct values in the data
-		// declared lists that use the whole range of codes (254..256 values)
-		if rapid.IntRange(0, 9).Draw(t, "fullfocus") == 0 {
-			size = rapid.SampledFrom([]int{254, 255, 255, 255, 256}).Draw(t, "fullsize")
-			declared = true
+func TestC17(t *testing.T) { rapid.Check(t, propC17) }
+
+// FuzzC17: the same property driven by coverage-guided bytes (thorough tier).
+func FuzzC17(f *testing.F) { f.Fuzz(rapid.MakeFuzz(propC17)) }
+
+func propC17(t *rapid.T) {
+	size := rapid.SampledFrom([]int{1, 2, 3, 5, 17, 63, 64, 65, 100, 127, 128, 129, 191, 192, 193, 250, 254, 255, 256, 257, 300}).Draw(t, "size")
+	declared := rapid.IntRange(0, 3).Draw(t, "declared") > 0
+	// the cardinality limit of derived enums on every construction path: exactly 254..257 distinct values in the data
+	// declared lists that use the whole range of codes (254..256 values)
+	if rapid.IntRange(0, 9).Draw(t, "fullfocus") == 0 {
+		size = rapid.SampledFrom([]int{254, 255, 255, 255, 256}).Draw(t, "fullsize")
+		declared = true
+	}
+	limitFocus := rapid.IntRange(0, 7).Draw(t, "limitfocus") == 0
+	if limitFocus {
+		size = rapid.SampledFrom([]int{254, 255, 256, 257}).Draw(t, "limitsize")
+		declared = false
+	}
+	rng := hx.SplitMix(rapid.Uint64().Draw(t, "permseed"))
+	// universe of values in an order that is not alphabetical (Fisher-Yates from the seed)
+	perm := hx.Iota(size)
+	for i := size - 1; i > 0; i-- {
+		j := rng.Intn(i + 1)
+		perm[i], perm[j] = perm[j], perm[i]
+	}
+	decl := make([]string, size)
+	for i, p := range perm {
+		decl[i] = enumValue(p)
+	}
+	n := rapid.SampledFrom([]int{0, 1, 5, 40, 300, 600}).Draw(t, "rows")
+	path := rapid.SampledFrom([]string{"new-ptrs", "new-ptrs", "new-strings", "new-const", "readcsv", "readjson"}).Draw(t, "path")
+	outside := rapid.IntRange(0, 9).Draw(t, "outside") == 0 // one value outside the declared list
+	// CSV only: read with EmptyNull(false), so that empty cells are the value "" (declared lists then hold "" as one of their values)
+	csvEmptyIsValue := path == "readcsv" && rapid.Bool().Draw(t, "csvemptyvalue")
+	if csvEmptyIsValue {
+		decl[size/2] = ""
+	}
+	// data: ranks (or -1 = null); cover the boundary ranks on purpose
+	ranks := make([]int, n)
+	boundary := []int{0, 62, 63, 64, 65, 126, 127, 128, 129, 190, 191, 192, 193, 253, 254, size - 1, size - 1, size - 2}
+	coverAll := rapid.IntRange(0, 3).Draw(t, "coverall") == 0 // use every value (cardinality = size)
+	if limitFocus {
+		coverAll = true
+		if n < 300 {
+			n = 300
+			ranks = make([]int, n)
 		}
-		limitFocus := rapid.IntRange(0, 7).Draw(t, "limitfocus") == 0
-		if limitFocus {
-			size = rapid.SampledFrom([]int{254, 255, 256, 257}).Draw(t, "limitsize")
-			declared = false
+	}
+	for r := range ranks {
+		switch {
+		case coverAll && r < size:
+			ranks[r] = r
+		case rng.Intn(6) == 0 && path != "new-strings":
+			ranks[r] = -1
+		case rng.Intn(3) == 0:
+			ranks[r] = boundary[rng.Intn(len(boundary))] % size
+		default:
+			ranks[r] = rng.Intn(size)
 		}
-		rng := hx.SplitMix(rapid.Uint64().Draw(t, "permseed"))
-		// universe of values in an order that is not alphabetical (Fisher-Yates from the seed)
-		perm := hx.Iota(size)
-		for i := size - 1; i > 0; i-- {
-			j := rng.Intn(i + 1)
-			perm[i], perm[j] = perm[j], perm[i]
-		}
-		decl := make([]string, size)
-		for i, p := range perm {
-			decl[i] = enumValue(p)
-		}
-		n := rapid.SampledFrom([]int{0, 1, 5, 40, 300, 600}).Draw(t, "rows")
-		path := rapid.SampledFrom([]string{"new-ptrs", "new-ptrs", "new-strings", "new-const", "readcsv", "readjson"}).Draw(t, "path")
-		outside := rapid.IntRange(0, 9).Draw(t, "outside") == 0 // one value outside the declared list
-		// CSV only: read with EmptyNull(false), so that empty cells are the value "" (declared lists then hold "" as one of their values)
-		csvEmptyIsValue := path == "readcsv" && rapid.Bool().Draw(t, "csvemptyvalue")
-		if csvEmptyIsValue {
-			decl[size/2] = ""
-		}
-		// data: ranks (or -1 = null); cover the boundary ranks on purpose
-		ranks := make([]int, n)
-		boundary := []int{0, 62, 63, 64, 65, 126, 127, 128, 129, 190, 191, 192, 193, 253, 254, size - 1, size - 1, size - 2}
-		coverAll := rapid.IntRange(0, 3).Draw(t, "coverall") == 0 // use every value (cardinality = size)
-		if limitFocus {
-			coverAll = true
-			if n < 300 {
-				n = 300
-				ranks = make([]int, n)
-			}
+	}
+	if path == "new-const" {
+		v := -1
+		if n > 0 {
+			v = ranks[0]
 		}
 		for r := range ranks {
-			switch {
-			case coverAll && r < size:
-				ranks[r] = r
-			case rng.Intn(6) == 0 && path != "new-strings":
-				ranks[r] = -1
-			case rng.Intn(3) == 0:
-				ranks[r] = boundary[rng.Intn(len(boundary))] % size
-			default:
-				ranks[r] = rng.Intn(size)
-			}
+			ranks[r] = v
 		}
+	}
+	data := make([]*string, n)
+	for r, k := range ranks {
+		if k >= 0 {
+			data[r] = hx.Sp(decl[k])
+		} else if csvEmptyIsValue {
+			data[r] = hx.Sp("") // an empty cell read without EmptyNull
+			ranks[r] = size / 2
+		}
+	}
+	outsidePos := -1
+	if outside && n > 0 {
+		outsidePos = rng.Intn(n)
 		if path == "new-const" {
-			v := -1
-			if n > 0 {
-				v = ranks[0]
+			for r := range data {
+				data[r] = hx.Sp("not-declared")
 			}
-			for r := range ranks {
-				ranks[r] = v
-			}
+		} else {
+			data[outsidePos] = hx.Sp("not-declared")
 		}
-		data := make([]*string, n)
-		for r, k := range ranks {
-			if k >= 0 {
-				data[r] = hx.Sp(decl[k])
-			} else if csvEmptyIsValue {
-				data[r] = hx.Sp("") // an empty cell read without EmptyNull
-				ranks[r] = size / 2
-			}
+	}
+	distinct := map[string]bool{}
+	for _, p := range data {
+		if p != nil {
+			distinct[*p] = true
 		}
-		outsidePos := -1
-		if outside && n > 0 {
-			outsidePos = rng.Intn(n)
-			if path == "new-const" {
-				for r := range data {
-					data[r] = hx.Sp("not-declared")
-				}
-			} else {
-				data[outsidePos] = hx.Sp("not-declared")
-			}
+	}
+	var enumConf []string
+	if declared {
+		enumConf = decl
+	}
+	// model verdict
+	wantErr := ""
+	switch {
+	case declared && size > 255:
+		wantErr = "more than 255 declared values"
+	case declared && outsidePos >= 0:
+		wantErr = "data holds an undeclared value"
+	case !declared && len(distinct) > 255:
+		wantErr = "more than 255 distinct values in a derived enum"
+	}
+	desc := func() string {
+		show := data
+		if len(show) > 30 {
+			show = show[:30]
 		}
-		distinct := map[string]bool{}
-		for _, p := range data {
-			if p != nil {
-				distinct[*p] = true
-			}
+		cells := make([]string, len(show))
+		for i, p := range show {
+			cells[i] = ptrStr(p)
 		}
-		var enumConf []string
-		if declared {
-			enumConf = decl
-		}
-		// model verdict
-		wantErr := ""
-		switch {
-		case declared && size > 255:
-			wantErr = "more than 255 declared values"
-		case declared && outsidePos >= 0:
-			wantErr = "data holds an undeclared value"
-		case !declared && len(distinct) > 255:
-			wantErr = "more than 255 distinct values in a derived enum"
-		}
-		desc := func() string {
-			show := data
-			if len(show) > 30 {
-				show = show[:30]
-			}
-			cells := make([]string, len(show))
-			for i, p := range show {
-				cells[i] = ptrStr(p)
-			}
-			return fmt.Sprintf("enum size=%d declared=%v (first values %q) rows=%d path=%s outside=%v distinct=%d coverAll=%v\ndata %s…\nmodel: err=%q",
-				size, declared, decl[:minInt(5, size)], n, path, outsidePos >= 0, len(distinct), coverAll, strings.Join(cells, " "), wantErr)
-		}
+		return fmt.Sprintf("enum size=%d declared=%v (first values %q) rows=%d path=%s outside=%v distinct=%d coverAll=%v\ndata %s…\nmodel: err=%q",
+			size, declared, decl[:minInt(5, size)], n, path, outsidePos >= 0, len(distinct), coverAll, strings.Join(cells, " "), wantErr)
+	}
 
-		// construct; the caller's configuration maps are used for one or two constructions (configuration objects
-		// are values a program keeps and reuses); the outcome of the last one is checked
-		enumsMap := map[string][]string{"e": enumConf}
-		typesMap := map[string]string{"e": "enum", "id": "int"}
-		reuse := rapid.IntRange(0, 2).Draw(t, "reuseconfig") == 0
-		var qf qframe.QFrame
-		var construct func()
-		perr := hx.Safely(func() {
-			construct = func() {
-				switch path {
-				case "new-ptrs":
-					qf = qframe.New(map[string]interface{}{"e": data, "id": hx.Iota(n)}, newqf.Enums(enumsMap))
-				case "new-strings":
-					ss := make([]string, n)
-					for i, p := range data {
-						ss[i] = *p
-					}
-					qf = qframe.New(map[string]interface{}{"e": ss, "id": hx.Iota(n)}, newqf.Enums(enumsMap))
-				case "new-const":
-					var v *string
-					if n > 0 {
-						v = data[0]
-					}
-					qf = qframe.New(map[string]interface{}{"e": qframe.ConstString{Val: v, Count: n}, "id": hx.Iota(n)}, newqf.Enums(enumsMap))
-				case "readcsv":
-					var sb strings.Builder
-					sb.WriteString("e,id\n")
-					for i, p := range data {
-						if p != nil {
-							sb.WriteString(*p)
-						}
-						fmt.Fprintf(&sb, ",%d\n", i)
-					}
-					fns := []csv.ConfigFunc{csv.Types(typesMap), csv.EmptyNull(true)}
-					if declared {
-						fns = append(fns, csv.EnumValues(enumsMap))
-					}
-					if csvEmptyIsValue {
-						// without EmptyNull an empty cell is the value "": it must be declared (or is derived)
-						fns[1] = csv.EmptyNull(false)
-					}
-					qf = qframe.ReadCSV(strings.NewReader(sb.String()), fns...)
-				case "readjson":
-					recs := make([]map[string]interface{}, n)
-					for i, p := range data {
-						recs[i] = map[string]interface{}{"id": i}
-						if p != nil {
-							recs[i]["e"] = *p
-						} else {
-							recs[i]["e"] = nil
-						}
-					}
-					b, _ := json.Marshal(recs)
-					qf = qframe.ReadJSON(bytes.NewReader(b), newqf.Enums(enumsMap))
+	// construct; the caller's configuration maps are used for one or two constructions (configuration objects
+	// are values a program keeps and reuses); the outcome of the last one is checked
+	enumsMap := map[string][]string{"e": enumConf}
+	typesMap := map[string]string{"e": "enum", "id": "int"}
+	reuse := rapid.IntRange(0, 2).Draw(t, "reuseconfig") == 0
+	var qf qframe.QFrame
+	var construct func()
+	perr := hx.Safely(func() {
+		construct = func() {
+			switch path {
+			case "new-ptrs":
+				qf = qframe.New(map[string]interface{}{"e": data, "id": hx.Iota(n)}, newqf.Enums(enumsMap))
+			case "new-strings":
+				ss := make([]string, n)
+				for i, p := range data {
+					ss[i] = *p
 				}
-			}
-			construct()
-			if reuse {
-				construct()
-			}
-		})
-		if perr != nil {
-			t.Fatalf("construction panicked: %v\n%s", perr, desc())
-		}
-		if path == "readjson" && n == 0 {
-			// no records: no columns, the Enums entry then names a missing column (rejected) - nothing to check
-			evC17.Case(false, desc, "path:"+path, "empty-json")
-			return
-		}
-		if wantErr != "" {
-			if qf.Err == nil {
-				t.Fatalf("construction must fail (%s) but returned a frame\n%s", wantErr, desc())
-			}
-			evC17.Case(size >= 254 && size <= 257, desc, "path:"+path, "rejected:"+wantErr)
-			return
-		}
-		if qf.Err != nil {
-			t.Fatalf("construction failed: %v\n%s", qf.Err, desc())
-		}
-		// read-out: every cell is its own string, null only where null was put
-		tab := hx.Table{Cols: []hx.Col{{Name: "e", Kind: hx.KEnum, S: data, Enum: enumConf}, {Name: "id", Kind: hx.KInt, I: hx.Iota(n)}}}
-		obs, err := hx.Observe(qf)
-		if err != nil {
-			t.Fatalf("observe: %v\n%s", err, desc())
-		}
-		wantT := tab
-		if path == "readjson" {
-			// ints come back as floats from JSON: compare the enum column only
-			wantT = hx.Table{Cols: tab.Cols[:1]}
-			obs = obs.Project([]string{"e"})
-		}
-		if diff := hx.Diff(wantT, obs); diff != "" {
-			t.Fatalf("enum column does not read back as it was put in: %s\n%s", diff, desc())
-		}
-		if path == "readjson" {
-			evC17.Case(false, desc, "path:"+path)
-			return
-		}
-
-		// operations
-		op := rapid.SampledFrom([]string{"cmp", "cmp", "cmp-undeclared", "in", "like", "sort", "colcmp", "predicate", "equals", "in-upper", "sort2"}).Draw(t, "op")
-		opDesc, fvia := "", "as constructed"
-		full := func() string { return desc() + "\nop " + opDesc + " (filtered frame: " + fvia + ")" }
-		// comparisons, in-lists and like also run on the column as other operations rebuild it (declared enums):
-		// as the key column of an Aggregate or Distinct result, as a copy, on a slice
-		fq, ftab := qf, tab
-		if declared && wantErr == "" && (op == "cmp" || op == "in" || op == "like") && rapid.IntRange(0, 2).Draw(t, "filtervia") == 0 {
-			fvia = rapid.SampledFrom([]string{"aggregate-key", "distinct", "copy", "slice"}).Draw(t, "fvia")
-			switch fvia {
-			case "aggregate-key":
-				fq = qf.GroupBy(groupby.Columns("e")).Aggregate(qframe.Aggregation{Fn: "min", Column: "id"})
-			case "distinct":
-				fq = qf.Distinct(groupby.Columns("e"))
-			case "copy":
-				fq = qf.Copy("e2", "e").Drop("e").Copy("e", "e2").Drop("e2")
-			case "slice":
-				fq = qf.Slice(n/3, n)
-			}
-			obs, err := hx.Observe(fq)
-			if err != nil || fq.Err != nil {
-				t.Fatalf("%s: %v %v\n%s", fvia, fq.Err, err, desc())
-			}
-			if ei := obs.Find("e"); ei >= 0 && obs.Cols[ei].Kind == hx.KEnum {
-				obs.Cols[ei].Enum = enumConf
-			} else {
-				t.Fatalf("after %s the column e is no enum column any more\n%s", fvia, desc())
-			}
-			ftab = obs
-		}
-		switch op {
-		case "in-upper":
-			// two declared values that differ only in case; after the ToUpper built-in both codes carry the same string and
-			// value-based filters must find the rows of both
-			if !declared || size < 2 || n < 2 || wantErr != "" {
-				break
-			}
-			lo := "twin-" + strings.ToLower(enumConf[0])
-			decl2 := append([]string{lo, strings.ToUpper(lo)}, enumConf...)
-			if len(decl2) > 255 {
-				decl2 = decl2[:255]
-			}
-			data2 := make([]*string, n)
-			var wantRows []int
-			for r := range data2 {
-				switch r % 4 {
-				case 0:
-					data2[r] = hx.Sp(decl2[0])
-					wantRows = append(wantRows, r)
-				case 1:
-					data2[r] = hx.Sp(decl2[1])
-					wantRows = append(wantRows, r)
-				case 2:
-					if data[r] != nil && (len(decl2) == 255+0 && *data[r] == enumConf[len(enumConf)-1] || false) {
-						data2[r] = nil
+				qf = qframe.New(map[string]interface{}{"e": ss, "id": hx.Iota(n)}, newqf.Enums(enumsMap))
+			case "new-const":
+				var v *string
+				if n > 0 {
+					v = data[0]
+				}
+				qf = qframe.New(map[string]interface{}{"e": qframe.ConstString{Val: v, Count: n}, "id": hx.Iota(n)}, newqf.Enums(enumsMap))
+			case "readcsv":
+				var sb strings.Builder
+				sb.WriteString("e,id\n")
+				for i, p := range data {
+					if p != nil {
+						sb.WriteString(*p)
+					}
+					fmt.Fprintf(&sb, ",%d\n", i)
+				}
+				fns := []csv.ConfigFunc{csv.Types(typesMap), csv.EmptyNull(true)}
+				if declared {
+					fns = append(fns, csv.EnumValues(enumsMap))
+				}
+				if csvEmptyIsValue {
+					// without EmptyNull an empty cell is the value "": it must be declared (or is derived)
+					fns[1] = csv.EmptyNull(false)
+				}
+				qf = qframe.ReadCSV(strings.NewReader(sb.String()), fns...)
+			case "readjson":
+				recs := make([]map[string]interface{}, n)
+				for i, p := range data {
+					recs[i] = map[string]interface{}{"id": i}
+					if p != nil {
+						recs[i]["e"] = *p
 					} else {
-						data2[r] = data[r]
+						recs[i]["e"] = nil
 					}
 				}
-			}
-			for r, p := range data2 { // values cut off by the 255 limit
-				if p != nil {
-					ok := false
-					for _, v := range decl2 {
-						if v == *p {
-							ok = true
-						}
-					}
-					if !ok {
-						data2[r] = nil
-					}
-				}
-			}
-			fr := qframe.New(map[string]interface{}{"e": data2, "id": hx.Iota(n)}, newqf.Enums(map[string][]string{"e": decl2}))
-			if fr.Err != nil {
-				t.Fatalf("twin values: %v\n%s", fr.Err, full())
-			}
-			up := fr.Apply(qframe.Instruction{Fn: "ToUpper", DstCol: "e", SrcCol1: "e"})
-			target := strings.ToUpper(lo)
-			kind := rapid.SampledFrom([]string{"in", "like", "ilike", "=", "predicate"}).Draw(t, "upperfilter")
-			opDesc = fmt.Sprintf("after ToUpper (values %q and %q now equal): filter e %s %q", decl2[0], decl2[1], kind, target)
-			var res qframe.QFrame
-			switch kind {
-			case "in":
-				res = up.Filter(qframe.Filter{Column: "e", Comparator: "in", Arg: []string{target, "zz-not-there"}})
-			case "predicate":
-				res = up.Filter(qframe.Filter{Column: "e", Comparator: func(p *string) bool { return p != nil && *p == target }})
-			default:
-				res = up.Filter(qframe.Filter{Column: "e", Comparator: kind, Arg: target})
-			}
-			if res.Err != nil {
-				if kind == "=" {
-					break // a constant that names two codes may be refused for =
-				}
-				t.Fatalf("filter failed: %v\n%s", res.Err, full())
-			}
-			if got := res.MustIntView("id").Slice(); fmt.Sprint(got) != fmt.Sprint(wantRows) {
-				t.Fatalf("rows %v, but the cells equal to %q stand in rows %v\n%s", clipInts(got), target, clipInts(wantRows), full())
-			}
-		case "sort2":
-			// the enum as second key behind a key with nulls: among the rows whose first key is null the declared order holds too
-			if !declared || n < 2 || wantErr != "" {
-				break
-			}
-			ks := make([]*string, n)
-			for r := range ks {
-				if r%3 != 0 {
-					ks[r] = hx.Sp([]string{"x", "y"}[r%2])
-				}
-			}
-			fr := qframe.New(map[string]interface{}{"k": ks, "e": data, "id": hx.Iota(n)}, newqf.Enums(map[string][]string{"e": enumConf}))
-			if fr.Err != nil {
-				t.Fatalf("frame with a nullable first key: %v\n%s", fr.Err, full())
-			}
-			t3 := hx.Table{Cols: []hx.Col{{Name: "e", Kind: hx.KEnum, S: data, Enum: enumConf}, {Name: "id", Kind: hx.KInt, I: hx.Iota(n)}, {Name: "k", Kind: hx.KString, S: ks}}}
-			os := []hx.Order{{Col: "k", NullLast: rapid.Bool().Draw(t, "knulllast")}, {Col: "e", Reverse: rapid.Bool().Draw(t, "erev"), NullLast: rapid.Bool().Draw(t, "enulllast")}}
-			opDesc = "sort " + hx.OrdersString(os)
-			res := fr.Sort(hx.BuildOrders(os)...)
-			got, err := hx.Observe(res)
-			if err != nil || res.Err != nil {
-				t.Fatalf("sort failed: %v %v\n%s", res.Err, err, full())
-			}
-			if msg := checkSorted(t3, got, os); msg != "" {
-				t.Fatalf("sort by a nullable key, then the enum: %s\n%s", msg, full())
-			}
-		case "predicate":
-			// a Go function as comparator: called for (or at least answering for) every row, null rows included
-			k := boundary[rapid.IntRange(0, len(boundary)-1).Draw(t, "predrank")] % size
-			wantNil := rapid.Bool().Draw(t, "prednil")
-			target := decl[k]
-			fn := func(p *string) bool {
-				if p == nil {
-					return wantNil
-				}
-				return *p == target
-			}
-			opDesc = fmt.Sprintf("filter e by func(*string) bool: nil -> %v, %q -> true", wantNil, target)
-			res := qf.Filter(qframe.Filter{Column: "e", Comparator: fn})
-			if res.Err != nil {
-				t.Fatalf("predicate filter failed: %v\n%s", res.Err, full())
-			}
-			var keep []int
-			for r := 0; r < n; r++ {
-				if fn(data[r]) {
-					keep = append(keep, r)
-				}
-			}
-			got, err := hx.Observe(res)
-			if err != nil {
-				t.Fatal(err)
-			}
-			if diff := hx.Diff(tab.Rows(keep), got); diff != "" {
-				t.Fatalf("predicate filter result differs from the model: %s\n%s", diff, full())
-			}
-		case "equals":
-			// the same strings over a value list in another order (first value kept, the rest rotated) are Equal; the same
-			// internal codes over other strings are not
-			if !declared || size < 3 || wantErr != "" {
-				break
-			}
-			decl2 := append([]string{enumConf[0]}, append(append([]string(nil), enumConf[2:]...), enumConf[1])...)
-			same := qframe.New(map[string]interface{}{"e": data, "id": hx.Iota(n)}, newqf.Enums(map[string][]string{"e": decl2}))
-			rank := map[string]int{}
-			for i, v := range enumConf {
-				rank[v] = i
-			}
-			data3 := make([]*string, n)
-			differs := false
-			for r, p := range data {
-				if p != nil {
-					data3[r] = hx.Sp(decl2[rank[*p]]) // the string that has the same code in the other list
-					if *data3[r] != *p {
-						differs = true
-					}
-				}
-			}
-			codes := qframe.New(map[string]interface{}{"e": data3, "id": hx.Iota(n)}, newqf.Enums(map[string][]string{"e": decl2}))
-			base2 := qframe.New(map[string]interface{}{"e": data, "id": hx.Iota(n)}, newqf.Enums(map[string][]string{"e": enumConf}))
-			if same.Err != nil || codes.Err != nil || base2.Err != nil {
-				t.Fatalf("building the comparison frames: %v %v %v\n%s", same.Err, codes.Err, base2.Err, full())
-			}
-			opDesc = "Equals against the same strings over a rotated value list, and against the same codes over other strings"
-			if ab, ba, why := equalsBoth(base2, same); !ab || !ba {
-				t.Fatalf("enum columns holding the same strings (value lists in another order) are not Equal (%v,%v): %s\n%s", ab, ba, why, full())
-			}
-			if ab, ba, _ := equalsBoth(base2, codes); (ab || ba) && differs {
-				t.Fatalf("enum columns holding different strings (but the same internal codes) are Equal (%v,%v)\n%s", ab, ba, full())
-			}
-		case "colcmp":
-			// the column against a second enum column of the same declared list, row by row, on a frame whose index
-			// is not the identity: by rank in the declared list, null never matching except under !=
-			if !declared || n < 2 || wantErr != "" {
-				break
-			}
-			shift := rapid.IntRange(1, n-1).Draw(t, "shift")
-			data2 := make([]*string, n)
-			for r := range data2 {
-				data2[r] = data[(r+shift)%n]
-			}
-			// now and then the second column declares the same values in another order: the two are then not of the same
-			// type, and comparing them is either refused or done by value - never by internal code
-			if size >= 3 && rapid.IntRange(0, 3).Draw(t, "rotateddecl") == 0 {
-				rot := append(append([]string(nil), enumConf[1:]...), enumConf[0])
-				fr := qframe.New(map[string]interface{}{"e": data, "e2": data2, "id": hx.Iota(n)}, newqf.Enums(map[string][]string{"e": enumConf, "e2": rot}))
-				if fr.Err != nil {
-					t.Fatalf("two enum columns over rotated lists: %v\n%s", fr.Err, full())
-				}
-				comp := rapid.SampledFrom([]string{"=", "!="}).Draw(t, "rotcomp")
-				opDesc = fmt.Sprintf("filter e %s column e2 whose value list is rotated", comp)
-				res := fr.Filter(qframe.Filter{Column: "e", Comparator: comp, Arg: types.ColumnName("e2")})
-				if res.Err == nil {
-					var want []int
-					for r := 0; r < n; r++ {
-						a, b := data[r], data2[r]
-						eq := a != nil && b != nil && *a == *b
-						if (comp == "=" && eq) || (comp == "!=" && !eq) {
-							want = append(want, r)
-						}
-					}
-					if got := res.MustIntView("id").Slice(); fmt.Sprint(got) != fmt.Sprint(want) {
-						t.Fatalf("enum columns with rotated value lists compared without an error but not by value: rows %v, by value %v\n%s", clipInts(got), clipInts(want), full())
-					}
-				}
-				break
-			}
-			// now and then the other column is the column itself under a second name (a Copy shares its storage), or the
-			// comparison names the same column on both sides: null still equals nothing, itself included
-			alias := rapid.IntRange(0, 3).Draw(t, "colalias")
-			if alias <= 1 {
-				data2 = data
-			}
-			fr := qframe.New(map[string]interface{}{"e": data, "e2": data2, "id": hx.Iota(n)}, newqf.Enums(map[string][]string{"e": enumConf, "e2": enumConf}))
-			if alias == 0 {
-				fr = fr.Copy("e2", "e")
-			}
-			if fr.Err != nil {
-				t.Fatalf("two enum columns over one declared list: %v\n%s", fr.Err, full())
-			}
-			tab2 := hx.Table{Cols: []hx.Col{{Name: "e", Kind: hx.KEnum, S: data, Enum: enumConf}, {Name: "e2", Kind: hx.KEnum, S: data2, Enum: enumConf}, {Name: "id", Kind: hx.KInt, I: hx.Iota(n)}}}
-			comp := rapid.SampledFrom([]string{"<", "<=", ">", ">=", "=", "!="}).Draw(t, "colcomp")
-			cl := hx.ColArg("e", comp, "e2")
-			if alias == 1 {
-				cl = hx.ColArg("e", comp, "e")
-			}
-			cl.Inverse = rapid.IntRange(0, 3).Draw(t, "colinv") == 0
-			// non-identity index: reversed, or every second row
-			var sel []int
-			derived := fr
-			if rapid.Bool().Draw(t, "colrev") {
-				derived = fr.Sort(qframe.Order{Column: "id", Reverse: true})
-				for r := n - 1; r >= 0; r-- {
-					sel = append(sel, r)
-				}
-			} else {
-				derived = fr.Filter(qframe.Filter{Column: "id", Comparator: "any_bits", Arg: 1}).Slice(0, n/2)
-				for r := 1; r < n; r += 2 {
-					sel = append(sel, r)
-				}
-			}
-			opDesc = fmt.Sprintf("filter e %s column e2 (e shifted by %d) inverse=%v on rows %v…", comp, shift, cl.Inverse, sel[:minInt(6, len(sel))])
-			res := derived.Filter(cl.Build(hx.KindMap(tab2)))
-			if res.Err != nil {
-				t.Fatalf("column-column filter on enum columns of one declared list failed: %v\n%s", res.Err, full())
-			}
-			var keep []int
-			for _, r := range sel {
-				if cl.Eval(tab2, r) {
-					keep = append(keep, r)
-				}
-			}
-			got, err := hx.Observe(res)
-			if err != nil {
-				t.Fatal(err)
-			}
-			if diff := hx.Diff(tab2.Rows(keep), got); diff != "" {
-				t.Fatalf("column-column filter result differs from the rank model: %s\n%s", diff, full())
-			}
-		case "cmp", "cmp-undeclared":
-			comps := []string{"<", "<=", ">", ">=", "=", "!="}
-			if !declared {
-				comps = []string{"=", "!="}
-			}
-			comp := rapid.SampledFrom(comps).Draw(t, "comp")
-			k := boundary[rapid.IntRange(0, len(boundary)-1).Draw(t, "constrank")] % size
-			c := decl[k]
-			if op == "cmp-undeclared" {
-				c = "not-declared"
-				hasEmpty := false
-				for _, v := range decl {
-					hasEmpty = hasEmpty || v == ""
-				}
-				if !hasEmpty && rapid.IntRange(0, 2).Draw(t, "emptyconst") == 0 {
-					c = "" // the empty string is a constant like any other: undeclared unless the list has it
-				}
-			}
-			inv := rapid.IntRange(0, 3).Draw(t, "inv") == 0
-			opDesc = fmt.Sprintf("filter e %s %q inverse=%v", comp, c, inv)
-			cl := hx.StrConst("e", comp, c)
-			cl.Inverse = inv
-			if op == "cmp-undeclared" && declared {
-				// the error must surface from wherever in a clause tree the comparison stands
-				wrapped := cl
-				ok := hx.NoArg("e", "isnotnull")
-				wrap := rapid.SampledFrom([]string{"plain", "plain", "not(and)", "not(or)", "not(not)", "and", "or", "and(ok,x)", "or(ok,x)", "not(and(ok,x))", "or(and(x),ok)", "or(all,not(x))", "or(all,and(x))", "or(all,x)", "and(none,x)"}).Draw(t, "wrap")
-				switch wrap {
-				case "not(and)":
-					wrapped = hx.Clause{Op: "not", Kids: []hx.Clause{{Op: "and", Kids: []hx.Clause{cl}}}}
-				case "not(or)":
-					wrapped = hx.Clause{Op: "not", Kids: []hx.Clause{{Op: "or", Kids: []hx.Clause{cl}}}}
-				case "not(not)":
-					wrapped = hx.Clause{Op: "not", Kids: []hx.Clause{{Op: "not", Kids: []hx.Clause{cl}}}}
-				case "and":
-					wrapped = hx.Clause{Op: "and", Kids: []hx.Clause{cl}}
-				case "or":
-					wrapped = hx.Clause{Op: "or", Kids: []hx.Clause{cl, cl}}
-				case "and(ok,x)":
-					wrapped = hx.Clause{Op: "and", Kids: []hx.Clause{ok, cl}}
-				case "or(ok,x)":
-					wrapped = hx.Clause{Op: "or", Kids: []hx.Clause{ok, cl}}
-				case "not(and(ok,x))":
-					wrapped = hx.Clause{Op: "not", Kids: []hx.Clause{{Op: "and", Kids: []hx.Clause{ok, cl}}}}
-				case "or(and(x),ok)":
-					wrapped = hx.Clause{Op: "or", Kids: []hx.Clause{{Op: "and", Kids: []hx.Clause{cl}}, ok}}
-				case "or(all,not(x))": // the rows are all selected before the invalid comparison is reached
-					wrapped = hx.Clause{Op: "or", Kids: []hx.Clause{{Op: "null"}, {Op: "not", Kids: []hx.Clause{cl}}}}
-				case "or(all,and(x))":
-					wrapped = hx.Clause{Op: "or", Kids: []hx.Clause{hx.IntConst("id", ">=", 0), {Op: "and", Kids: []hx.Clause{cl}}}}
-				case "or(all,x)":
-					wrapped = hx.Clause{Op: "or", Kids: []hx.Clause{hx.IntConst("id", ">=", 0), cl}}
-				case "and(none,x)": // ... or none is left
-					wrapped = hx.Clause{Op: "and", Kids: []hx.Clause{hx.IntConst("id", "<", 0), cl}}
-				}
-				opDesc += " wrapped as " + wrap
-				res := qf.Filter(wrapped.Build(hx.KindMap(tab)))
-				if res.Err == nil {
-					t.Fatalf("filtering a declared enum against an undeclared constant must be an error\n%s", full())
-				}
-				break
-			}
-			if declared && size >= 3 && rapid.IntRange(0, 3).Draw(t, "otherorderfirst") == 0 {
-				// another enum column over the same values in another declared order (same length, same first value) was
-				// asked the same question just before: the rank of a constant belongs to the column it is compared with
-				alt := []string{enumConf[0]}
-				for i := len(enumConf) - 1; i >= 1; i-- {
-					alt = append(alt, enumConf[i])
-				}
-				other := qframe.New(map[string]interface{}{"e": data}, newqf.Enums(map[string][]string{"e": alt}))
-				_ = other.Filter(qframe.Filter{Column: "e", Comparator: comp, Arg: c, Inverse: inv})
-				opDesc += " (after the same comparison on a column declared in another order)"
-			}
-			cl = c17Combine(t, cl, ftab, &opDesc)
-			res := fq.Filter(cl.Build(hx.KindMap(ftab)))
-			if res.Err != nil {
-				t.Fatalf("filter failed: %v\n%s", res.Err, full())
-			}
-			var keep []int
-			for r := 0; r < ftab.N(); r++ {
-				if cl.Eval(ftab, r) {
-					keep = append(keep, r)
-				}
-			}
-			got, err := hx.Observe(res)
-			if err != nil {
-				t.Fatal(err)
-			}
-			if diff := hx.Diff(ftab.Rows(keep), got); diff != "" {
-				t.Fatalf("filter result differs from the rank model: %s\n%s", diff, full())
-			}
-		case "in":
-			m := rapid.IntRange(0, 6).Draw(t, "inlen")
-			var ls []string
-			for i := 0; i < m; i++ {
-				ls = append(ls, decl[boundary[rapid.IntRange(0, len(boundary)-1).Draw(t, "inrank")]%size])
-			}
-			opDesc = fmt.Sprintf("filter e in %q", ls)
-			cl := hx.Clause{Op: "leaf", Col: "e", Comp: "in", Arg: "list", LS: ls}
-			if ls == nil {
-				cl.LS = []string{}
-			}
-			cl = c17Combine(t, cl, ftab, &opDesc)
-			res := fq.Filter(cl.Build(hx.KindMap(ftab)))
-			if res.Err != nil {
-				t.Fatalf("filter failed: %v\n%s", res.Err, full())
-			}
-			var keep []int
-			for r := 0; r < ftab.N(); r++ {
-				if cl.Eval(ftab, r) {
-					keep = append(keep, r)
-				}
-			}
-			got, _ := hx.Observe(res)
-			if diff := hx.Diff(ftab.Rows(keep), got); diff != "" {
-				t.Fatalf("in-filter result differs from the model: %s\n%s", diff, full())
-			}
-		case "like":
-			pat := rapid.SampledFrom([]string{"v0%", "%7", "%12%", "v064", "V064", "v1.%", "%[0-3]", "v25%"}).Draw(t, "pattern")
-			comp := rapid.SampledFrom([]string{"like", "ilike"}).Draw(t, "likecomp")
-			opDesc = fmt.Sprintf("filter e %s %q", comp, pat)
-			cl := hx.StrConst("e", comp, pat)
-			cl = c17Combine(t, cl, ftab, &opDesc)
-			res := fq.Filter(cl.Build(hx.KindMap(ftab)))
-			if res.Err != nil {
-				t.Fatalf("filter failed: %v\n%s", res.Err, full())
-			}
-			var keep []int
-			for r := 0; r < ftab.N(); r++ {
-				if cl.Eval(ftab, r) {
-					keep = append(keep, r)
-				}
-			}
-			got, _ := hx.Observe(res)
-			if diff := hx.Diff(ftab.Rows(keep), got); diff != "" {
-				t.Fatalf("like-filter result differs from the model: %s\n%s", diff, full())
-			}
-		case "sort":
-			if !declared {
-				break // rank order of derived enums is unspecified
-			}
-			o := hx.Order{Col: "e", Reverse: rapid.Bool().Draw(t, "rev"), NullLast: rapid.Bool().Draw(t, "nulllast")}
-			// the column keeps its declared order through operations that rebuild it: as the key column of an
-			// Aggregate or Distinct result, as a copy, as the result of the ToUpper built-in
-			via := rapid.SampledFrom([]string{"direct", "direct", "aggregate-key", "distinct", "copy", "toupper"}).Draw(t, "sortvia")
-			src, srcDecl := qf, enumConf
-			switch via {
-			case "aggregate-key":
-				src = qf.GroupBy(groupby.Columns("e")).Aggregate(qframe.Aggregation{Fn: "min", Column: "id"}) // id stays a unique row identity
-			case "distinct":
-				src = qf.Distinct(groupby.Columns("e"))
-			case "copy":
-				src = qf.Copy("e2", "e").Drop("e").Copy("e", "e2").Drop("e2")
-			case "toupper":
-				src = qf.Apply(qframe.Instruction{Fn: "ToUpper", DstCol: "e", SrcCol1: "e"})
-				srcDecl = make([]string, len(enumConf))
-				for i, v := range enumConf {
-					srcDecl[i] = strings.ToUpper(v)
-				}
-			}
-			if src.Err != nil {
-				t.Fatalf("%s failed: %v\n%s", via, src.Err, full())
-			}
-			srcObs, err := hx.Observe(src)
-			if err != nil {
-				t.Fatal(err)
-			}
-			if ei := srcObs.Find("e"); ei >= 0 && srcObs.Cols[ei].Kind == hx.KEnum {
-				srcObs.Cols[ei].Enum = srcDecl
-			} else {
-				t.Fatalf("after %s the column e is no enum column any more\n%s", via, full())
-			}
-			tab := srcObs
-			opDesc = "sort " + o.String() + " via " + via
-			res := src.Sort(hx.BuildOrders([]hx.Order{o})...)
-			if res.Err != nil {
-				t.Fatalf("sort failed: %v\n%s", res.Err, full())
-			}
-			got, err := hx.Observe(res)
-			if err != nil {
-				t.Fatal(err)
-			}
-			if msg := checkSorted(tab, got, []hx.Order{o}); msg != "" {
-				t.Fatalf("sort on the enum column violates the declared order: %s\n%s", msg, full())
-			}
-			// a sorted frame whose key column is then overwritten by another enum column of the same declared list, sorted
-			// again by the same order: the new values decide, in declared order
-			if via == "direct" && n >= 2 && rapid.IntRange(0, 2).Draw(t, "resortenum") == 0 {
-				shift := rapid.IntRange(1, n-1).Draw(t, "resortshift")
-				other := make([]*string, n)
-				for r := range other {
-					other[r] = data[(r+shift)%n]
-				}
-				two := qframe.New(map[string]interface{}{"e": data, "f": other, "id": hx.Iota(n)}, newqf.Enums(map[string][]string{"e": enumConf, "f": enumConf}))
-				ro := hx.BuildOrders([]hx.Order{o})
-				changed := two.Sort(ro...).Copy("e", "f")
-				again := changed.Sort(ro...)
-				if two.Err != nil || again.Err != nil {
-					t.Fatalf("sort, overwrite the key, sort again: %v %v\n%s", two.Err, again.Err, full())
-				}
-				cobs, err1 := hx.Observe(changed)
-				aobs, err2 := hx.Observe(again)
-				if err1 != nil || err2 != nil {
-					t.Fatal(err1, err2)
-				}
-				for _, tb := range []*hx.Table{&cobs, &aobs} {
-					for i := range tb.Cols {
-						if tb.Cols[i].Kind == hx.KEnum {
-							tb.Cols[i].Enum = enumConf
-						}
-					}
-				}
-				if msg := checkSorted(cobs, aobs, []hx.Order{o}); msg != "" {
-					t.Fatalf("sorted, key column overwritten by Copy(e, f), sorted again by the same order: %s\n%s", msg, full())
-				}
-			}
-			// the view's Slice() tells the same as its ItemAt
-			if ev, err := res.EnumView("e"); err == nil {
-				sl := ev.Slice()
-				ec := got.MustCol("e")
-				if len(sl) != ec.Len() {
-					t.Fatalf("EnumView.Slice() has %d entries, the column %d\n%s", len(sl), ec.Len(), full())
-				}
-				for r := range sl {
-					if (sl[r] == nil) != (ec.S[r] == nil) || (sl[r] != nil && *sl[r] != *ec.S[r]) {
-						t.Fatalf("EnumView.Slice()[%d] = %s but ItemAt(%d) = %s\n%s", r, ptrStr(sl[r]), r, ptrStr(ec.S[r]), full())
-					}
-				}
+				b, _ := json.Marshal(recs)
+				qf = qframe.ReadJSON(bytes.NewReader(b), newqf.Enums(enumsMap))
 			}
 		}
-		high := false
-		for _, k := range ranks {
-			if k >= 64 {
-				high = true
-			}
+		construct()
+		if reuse {
+			construct()
 		}
-		// whatever was done above, the constructed frame still reads as constructed (no value reported as another string)
-		if after, err := hx.Observe(qf); err != nil || hx.Diff(wantT, after) != "" {
-			t.Fatalf("the frame no longer reads back as constructed after %s: %v %s\n%s", opDesc, err, hx.Diff(wantT, after), full())
-		}
-		nontrivial := (declared && size >= 64 && high) || (len(distinct) >= 254 && len(distinct) <= 257) || (size >= 254 && size <= 257)
-		evC17.Case(nontrivial, func() string { return full() }, "path:"+path, "op:"+op, fmt.Sprintf("declared=%v", declared), fmt.Sprintf("size=%d", size))
 	})
+	if perr != nil {
+		t.Fatalf("construction panicked: %v\n%s", perr, desc())
+	}
+	if path == "readjson" && n == 0 {
+		// no records: no columns, the Enums entry then names a missing column (rejected) - nothing to check
+		evC17.Case(false, desc, "path:"+path, "empty-json")
+		return
+	}
+	if wantErr != "" {
+		if qf.Err == nil {
+			t.Fatalf("construction must fail (%s) but returned a frame\n%s", wantErr, desc())
+		}
+		evC17.Case(size >= 254 && size <= 257, desc, "path:"+path, "rejected:"+wantErr)
+		return
+	}
+	if qf.Err != nil {
+		t.Fatalf("construction failed: %v\n%s", qf.Err, desc())
+	}
+	// read-out: every cell is its own string, null only where null was put
+	tab := hx.Table{Cols: []hx.Col{{Name: "e", Kind: hx.KEnum, S: data, Enum: enumConf}, {Name: "id", Kind: hx.KInt, I: hx.Iota(n)}}}
+	obs, err := hx.Observe(qf)
+	if err != nil {
+		t.Fatalf("observe: %v\n%s", err, desc())
+	}
+	wantT := tab
+	if path == "readjson" {
+		// ints come back as floats from JSON: compare the enum column only
+		wantT = hx.Table{Cols: tab.Cols[:1]}
+		obs = obs.Project([]string{"e"})
+	}
+	if diff := hx.Diff(wantT, obs); diff != "" {
+		t.Fatalf("enum column does not read back as it was put in: %s\n%s", diff, desc())
+	}
+	if path == "readjson" {
+		evC17.Case(false, desc, "path:"+path)
+		return
+	}
+
+	// operations
+	op := rapid.SampledFrom([]string{"cmp", "cmp", "cmp-undeclared", "in", "like", "sort", "colcmp", "predicate", "equals", "in-upper", "sort2"}).Draw(t, "op")
+	opDesc, fvia := "", "as constructed"
+	full := func() string { return desc() + "\nop " + opDesc + " (filtered frame: " + fvia + ")" }
+	// comparisons, in-lists and like also run on the column as other operations rebuild it (declared enums):
+	// as the key column of an Aggregate or Distinct result, as a copy, on a slice
+	fq, ftab := qf, tab
+	if declared && wantErr == "" && (op == "cmp" || op == "in" || op == "like") && rapid.IntRange(0, 2).Draw(t, "filtervia") == 0 {
+		fvia = rapid.SampledFrom([]string{"aggregate-key", "distinct", "copy", "slice"}).Draw(t, "fvia")
+		switch fvia {
+		case "aggregate-key":
+			fq = qf.GroupBy(groupby.Columns("e")).Aggregate(qframe.Aggregation{Fn: "min", Column: "id"})
+		case "distinct":
+			fq = qf.Distinct(groupby.Columns("e"))
+		case "copy":
+			fq = qf.Copy("e2", "e").Drop("e").Copy("e", "e2").Drop("e2")
+		case "slice":
+			fq = qf.Slice(n/3, n)
+		}
+		obs, err := hx.Observe(fq)
+		if err != nil || fq.Err != nil {
+			t.Fatalf("%s: %v %v\n%s", fvia, fq.Err, err, desc())
+		}
+		if ei := obs.Find("e"); ei >= 0 && obs.Cols[ei].Kind == hx.KEnum {
+			obs.Cols[ei].Enum = enumConf
+		} else {
+			t.Fatalf("after %s the column e is no enum column any more\n%s", fvia, desc())
+		}
+		ftab = obs
+	}
+	switch op {
+	case "in-upper":
+		// two declared values that differ only in case; after the ToUpper built-in both codes carry the same string and
+		// value-based filters must find the rows of both
+		if !declared || size < 2 || n < 2 || wantErr != "" {
+			break
+		}
+		lo := "twin-" + strings.ToLower(enumConf[0])
+		decl2 := append([]string{lo, strings.ToUpper(lo)}, enumConf...)
+		if len(decl2) > 255 {
+			decl2 = decl2[:255]
+		}
+		data2 := make([]*string, n)
+		var wantRows []int
+		for r := range data2 {
+			switch r % 4 {
+			case 0:
+				data2[r] = hx.Sp(decl2[0])
+				wantRows = append(wantRows, r)
+			case 1:
+				data2[r] = hx.Sp(decl2[1])
+				wantRows = append(wantRows, r)
+			case 2:
+				if data[r] != nil && (len(decl2) == 255+0 && *data[r] == enumConf[len(enumConf)-1] || false) {
+					data2[r] = nil
+				} else {
+					data2[r] = data[r]
+				}
+			}
+		}
+		for r, p := range data2 { // values cut off by the 255 limit
+			if p != nil {
+				ok := false
+				for _, v := range decl2 {
+					if v == *p {
+						ok = true
+					}
+				}
+				if !ok {
+					data2[r] = nil
+				}
+			}
+		}
+		fr := qframe.New(map[string]interface{}{"e": data2, "id": hx.Iota(n)}, newqf.Enums(map[string][]string{"e": decl2}))
+		if fr.Err != nil {
+			t.Fatalf("twin values: %v\n%s", fr.Err, full())
+		}
+		up := fr.Apply(qframe.Instruction{Fn: "ToUpper", DstCol: "e", SrcCol1: "e"})
+		target := strings.ToUpper(lo)
+		kind := rapid.SampledFrom([]string{"in", "like", "ilike", "=", "predicate"}).Draw(t, "upperfilter")
+		opDesc = fmt.Sprintf("after ToUpper (values %q and %q now equal): filter e %s %q", decl2[0], decl2[1], kind, target)
+		var res qframe.QFrame
+		switch kind {
+		case "in":
+			res = up.Filter(qframe.Filter{Column: "e", Comparator: "in", Arg: []string{target, "zz-not-there"}})
+		case "predicate":
+			res = up.Filter(qframe.Filter{Column: "e", Comparator: func(p *string) bool { return p != nil && *p == target }})
+		default:
+			res = up.Filter(qframe.Filter{Column: "e", Comparator: kind, Arg: target})
+		}
+		if res.Err != nil {
+			if kind == "=" {
+				break // a constant that names two codes may be refused for =
+			}
+			t.Fatalf("filter failed: %v\n%s", res.Err, full())
+		}
+		if got := res.MustIntView("id").Slice(); fmt.Sprint(got) != fmt.Sprint(wantRows) {
+			t.Fatalf("rows %v, but the cells equal to %q stand in rows %v\n%s", clipInts(got), target, clipInts(wantRows), full())
+		}
+	case "sort2":
+		// the enum as second key behind a key with nulls: among the rows whose first key is null the declared order holds too
+		if !declared || n < 2 || wantErr != "" {
+			break
+		}
+		ks := make([]*string, n)
+		for r := range ks {
+			if r%3 != 0 {
+				ks[r] = hx.Sp([]string{"x", "y"}[r%2])
+			}
+		}
+		fr := qframe.New(map[string]interface{}{"k": ks, "e": data, "id": hx.Iota(n)}, newqf.Enums(map[string][]string{"e": enumConf}))
+		if fr.Err != nil {
+			t.Fatalf("frame with a nullable first key: %v\n%s", fr.Err, full())
+		}
+		t3 := hx.Table{Cols: []hx.Col{{Name: "e", Kind: hx.KEnum, S: data, Enum: enumConf}, {Name: "id", Kind: hx.KInt, I: hx.Iota(n)}, {Name: "k", Kind: hx.KString, S: ks}}}
+		os := []hx.Order{{Col: "k", NullLast: rapid.Bool().Draw(t, "knulllast")}, {Col: "e", Reverse: rapid.Bool().Draw(t, "erev"), NullLast: rapid.Bool().Draw(t, "enulllast")}}
+		opDesc = "sort " + hx.OrdersString(os)
+		res := fr.Sort(hx.BuildOrders(os)...)
+		got, err := hx.Observe(res)
+		if err != nil || res.Err != nil {
+			t.Fatalf("sort failed: %v %v\n%s", res.Err, err, full())
+		}
+		if msg := checkSorted(t3, got, os); msg != "" {
+			t.Fatalf("sort by a nullable key, then the enum: %s\n%s", msg, full())
+		}
+	case "predicate":
+		// a Go function as comparator: called for (or at least answering for) every row, null rows included
+		k := boundary[rapid.IntRange(0, len(boundary)-1).Draw(t, "predrank")] % size
+		wantNil := rapid.Bool().Draw(t, "prednil")
+		target := decl[k]
+		fn := func(p *string) bool {
+			if p == nil {
+				return wantNil
+			}
+			return *p == target
+		}
+		opDesc = fmt.Sprintf("filter e by func(*string) bool: nil -> %v, %q -> true", wantNil, target)
+		res := qf.Filter(qframe.Filter{Column: "e", Comparator: fn})
+		if res.Err != nil {
+			t.Fatalf("predicate filter failed: %v\n%s", res.Err, full())
+		}
+		var keep []int
+		for r := 0; r < n; r++ {
+			if fn(data[r]) {
+				keep = append(keep, r)
+			}
+		}
+		got, err := hx.Observe(res)
+		if err != nil {
+			t.Fatal(err)
+		}
+		if diff := hx.Diff(tab.Rows(keep), got); diff != "" {
+			t.Fatalf("predicate filter result differs from the model: %s\n%s", diff, full())
+		}
+	case "equals":
+		// the same strings over a value list in another order (first value kept, the rest rotated) are Equal; the same
+		// internal codes over other strings are not
+		if !declared || size < 3 || wantErr != "" {
+			break
+		}
+		decl2 := append([]string{enumConf[0]}, append(append([]string(nil), enumConf[2:]...), enumConf[1])...)
+		same := qframe.New(map[string]interface{}{"e": data, "id": hx.Iota(n)}, newqf.Enums(map[string][]string{"e": decl2}))
+		rank := map[string]int{}
+		for i, v := range enumConf {
+			rank[v] = i
+		}
+		data3 := make([]*string, n)
+		differs := false
+		for r, p := range data {
+			if p != nil {
+				data3[r] = hx.Sp(decl2[rank[*p]]) // the string that has the same code in the other list
+				if *data3[r] != *p {
+					differs = true
+				}
+			}
+		}
+		codes := qframe.New(map[string]interface{}{"e": data3, "id": hx.Iota(n)}, newqf.Enums(map[string][]string{"e": decl2}))
+		base2 := qframe.New(map[string]interface{}{"e": data, "id": hx.Iota(n)}, newqf.Enums(map[string][]string{"e": enumConf}))
+		if same.Err != nil || codes.Err != nil || base2.Err != nil {
+			t.Fatalf("building the comparison frames: %v %v %v\n%s", same.Err, codes.Err, base2.Err, full())
+		}
+		opDesc = "Equals against the same strings over a rotated value list, and against the same codes over other strings"
+		if ab, ba, why := equalsBoth(base2, same); !ab || !ba {
+			t.Fatalf("enum columns holding the same strings (value lists in another order) are not Equal (%v,%v): %s\n%s", ab, ba, why, full())
+		}
+		if ab, ba, _ := equalsBoth(base2, codes); (ab || ba) && differs {
+			t.Fatalf("enum columns holding different strings (but the same internal codes) are Equal (%v,%v)\n%s", ab, ba, full())
+		}
+	case "colcmp":
+		// the column against a second enum column of the same declared list, row by row, on a frame whose index
+		// is not the identity: by rank in the declared list, null never matching except under !=
+		if !declared || n < 2 || wantErr != "" {
+			break
+		}
+		shift := rapid.IntRange(1, n-1).Draw(t, "shift")
+		data2 := make([]*string, n)
+		for r := range data2 {
+			data2[r] = data[(r+shift)%n]
+		}
+		// now and then the second column declares the same values in another order: the two are then not of the same
+		// type, and comparing them is either refused or done by value - never by internal code
+		if size >= 3 && rapid.IntRange(0, 3).Draw(t, "rotateddecl") == 0 {
+			rot := append(append([]string(nil), enumConf[1:]...), enumConf[0])
+			fr := qframe.New(map[string]interface{}{"e": data, "e2": data2, "id": hx.Iota(n)}, newqf.Enums(map[string][]string{"e": enumConf, "e2": rot}))
+			if fr.Err != nil {
+				t.Fatalf("two enum columns over rotated lists: %v\n%s", fr.Err, full())
+			}
+			comp := rapid.SampledFrom([]string{"=", "!="}).Draw(t, "rotcomp")
+			opDesc = fmt.Sprintf("filter e %s column e2 whose value list is rotated", comp)
+			res := fr.Filter(qframe.Filter{Column: "e", Comparator: comp, Arg: types.ColumnName("e2")})
+			if res.Err == nil {
+				var want []int
+				for r := 0; r < n; r++ {
+					a, b := data[r], data2[r]
+					eq := a != nil && b != nil && *a == *b
+					if (comp == "=" && eq) || (comp == "!=" && !eq) {
+						want = append(want, r)
+					}
+				}
+				if got := res.MustIntView("id").Slice(); fmt.Sprint(got) != fmt.Sprint(want) {
+					t.Fatalf("enum columns with rotated value lists compared without an error but not by value: rows %v, by value %v\n%s", clipInts(got), clipInts(want), full())
+				}
+			}
+			break
+		}
+		// now and then the other column is the column itself under a second name (a Copy shares its storage), or the
+		// comparison names the same column on both sides: null still equals nothing, itself included
+		alias := rapid.IntRange(0, 3).Draw(t, "colalias")
+		if alias <= 1 {
+			data2 = data
+		}
+		fr := qframe.New(map[string]interface{}{"e": data, "e2": data2, "id": hx.Iota(n)}, newqf.Enums(map[string][]string{"e": enumConf, "e2": enumConf}))
+		if alias == 0 {
+			fr = fr.Copy("e2", "e")
+		}
+		if fr.Err != nil {
+			t.Fatalf("two enum columns over one declared list: %v\n%s", fr.Err, full())
+		}
+		tab2 := hx.Table{Cols: []hx.Col{{Name: "e", Kind: hx.KEnum, S: data, Enum: enumConf}, {Name: "e2", Kind: hx.KEnum, S: data2, Enum: enumConf}, {Name: "id", Kind: hx.KInt, I: hx.Iota(n)}}}
+		comp := rapid.SampledFrom([]string{"<", "<=", ">", ">=", "=", "!="}).Draw(t, "colcomp")
+		cl := hx.ColArg("e", comp, "e2")
+		if alias == 1 {
+			cl = hx.ColArg("e", comp, "e")
+		}
+		cl.Inverse = rapid.IntRange(0, 3).Draw(t, "colinv") == 0
+		// non-identity index: reversed, or every second row
+		var sel []int
+		derived := fr
+		if rapid.Bool().Draw(t, "colrev") {
+			derived = fr.Sort(qframe.Order{Column: "id", Reverse: true})
+			for r := n - 1; r >= 0; r-- {
+				sel = append(sel, r)
+			}
+		} else {
+			derived = fr.Filter(qframe.Filter{Column: "id", Comparator: "any_bits", Arg: 1}).Slice(0, n/2)
+			for r := 1; r < n; r += 2 {
+				sel = append(sel, r)
+			}
+		}
+		opDesc = fmt.Sprintf("filter e %s column e2 (e shifted by %d) inverse=%v on rows %v…", comp, shift, cl.Inverse, sel[:minInt(6, len(sel))])
+		res := derived.Filter(cl.Build(hx.KindMap(tab2)))
+		if res.Err != nil {
+			t.Fatalf("column-column filter on enum columns of one declared list failed: %v\n%s", res.Err, full())
+		}
+		var keep []int
+		for _, r := range sel {
+			if cl.Eval(tab2, r) {
+				keep = append(keep, r)
+			}
+		}
+		got, err := hx.Observe(res)
+		if err != nil {
+			t.Fatal(err)
+		}
+		if diff := hx.Diff(tab2.Rows(keep), got); diff != "" {
+			t.Fatalf("column-column filter result differs from the rank model: %s\n%s", diff, full())
+		}
+	case "cmp", "cmp-undeclared":
+		comps := []string{"<", "<=", ">", ">=", "=", "!="}
+		if !declared {
+			comps = []string{"=", "!="}
+		}
+		comp := rapid.SampledFrom(comps).Draw(t, "comp")
+		k := boundary[rapid.IntRange(0, len(boundary)-1).Draw(t, "constrank")] % size
+		c := decl[k]
+		if op == "cmp-undeclared" {
+			c = "not-declared"
+			hasEmpty := false
+			for _, v := range decl {
+				hasEmpty = hasEmpty || v == ""
+			}
+			if !hasEmpty && rapid.IntRange(0, 2).Draw(t, "emptyconst") == 0 {
+				c = "" // the empty string is a constant like any other: undeclared unless the list has it
+			}
+		}
+		inv := rapid.IntRange(0, 3).Draw(t, "inv") == 0
+		opDesc = fmt.Sprintf("filter e %s %q inverse=%v", comp, c, inv)
+		cl := hx.StrConst("e", comp, c)
+		cl.Inverse = inv
+		if op == "cmp-undeclared" && declared {
+			// the error must surface from wherever in a clause tree the comparison stands
+			wrapped := cl
+			ok := hx.NoArg("e", "isnotnull")
+			wrap := rapid.SampledFrom([]string{"plain", "plain", "not(and)", "not(or)", "not(not)", "and", "or", "and(ok,x)", "or(ok,x)", "not(and(ok,x))", "or(and(x),ok)", "or(all,not(x))", "or(all,and(x))", "or(all,x)", "and(none,x)"}).Draw(t, "wrap")
+			switch wrap {
+			case "not(and)":
+				wrapped = hx.Clause{Op: "not", Kids: []hx.Clause{{Op: "and", Kids: []hx.Clause{cl}}}}
+			case "not(or)":
+				wrapped = hx.Clause{Op: "not", Kids: []hx.Clause{{Op: "or", Kids: []hx.Clause{cl}}}}
+			case "not(not)":
+				wrapped = hx.Clause{Op: "not", Kids: []hx.Clause{{Op: "not", Kids: []hx.Clause{cl}}}}
+			case "and":
+				wrapped = hx.Clause{Op: "and", Kids: []hx.Clause{cl}}
+			case "or":
+				wrapped = hx.Clause{Op: "or", Kids: []hx.Clause{cl, cl}}
+			case "and(ok,x)":
+				wrapped = hx.Clause{Op: "and", Kids: []hx.Clause{ok, cl}}
+			case "or(ok,x)":
+				wrapped = hx.Clause{Op: "or", Kids: []hx.Clause{ok, cl}}
+			case "not(and(ok,x))":
+				wrapped = hx.Clause{Op: "not", Kids: []hx.Clause{{Op: "and", Kids: []hx.Clause{ok, cl}}}}
+			case "or(and(x),ok)":
+				wrapped = hx.Clause{Op: "or", Kids: []hx.Clause{{Op: "and", Kids: []hx.Clause{cl}}, ok}}
+			case "or(all,not(x))": // the rows are all selected before the invalid comparison is reached
+				wrapped = hx.Clause{Op: "or", Kids: []hx.Clause{{Op: "null"}, {Op: "not", Kids: []hx.Clause{cl}}}}
+			case "or(all,and(x))":
+				wrapped = hx.Clause{Op: "or", Kids: []hx.Clause{hx.IntConst("id", ">=", 0), {Op: "and", Kids: []hx.Clause{cl}}}}
+			case "or(all,x)":
+				wrapped = hx.Clause{Op: "or", Kids: []hx.Clause{hx.IntConst("id", ">=", 0), cl}}
+			case "and(none,x)": // ... or none is left
+				wrapped = hx.Clause{Op: "and", Kids: []hx.Clause{hx.IntConst("id", "<", 0), cl}}
+			}
+			opDesc += " wrapped as " + wrap
+			res := qf.Filter(wrapped.Build(hx.KindMap(tab)))
+			if res.Err == nil {
+				t.Fatalf("filtering a declared enum against an undeclared constant must be an error\n%s", full())
+			}
+			break
+		}
+		if declared && size >= 3 && rapid.IntRange(0, 3).Draw(t, "otherorderfirst") == 0 {
+			// another enum column over the same values in another declared order (same length, same first value) was
+			// asked the same question just before: the rank of a constant belongs to the column it is compared with
+			alt := []string{enumConf[0]}
+			for i := len(enumConf) - 1; i >= 1; i-- {
+				alt = append(alt, enumConf[i])
+			}
+			other := qframe.New(map[string]interface{}{"e": data}, newqf.Enums(map[string][]string{"e": alt}))
+			_ = other.Filter(qframe.Filter{Column: "e", Comparator: comp, Arg: c, Inverse: inv})
+			opDesc += " (after the same comparison on a column declared in another order)"
+		}
+		cl = c17Combine(t, cl, ftab, &opDesc)
+		res := fq.Filter(cl.Build(hx.KindMap(ftab)))
+		if res.Err != nil {
+			t.Fatalf("filter failed: %v\n%s", res.Err, full())
+		}
+		var keep []int
+		for r := 0; r < ftab.N(); r++ {
+			if cl.Eval(ftab, r) {
+				keep = append(keep, r)
+			}
+		}
+		got, err := hx.Observe(res)
+		if err != nil {
+			t.Fatal(err)
+		}
+		if diff := hx.Diff(ftab.Rows(keep), got); diff != "" {
+			t.Fatalf("filter result differs from the rank model: %s\n%s", diff, full())
+		}
+	case "in":
+		m := rapid.IntRange(0, 6).Draw(t, "inlen")
+		var ls []string
+		for i := 0; i < m; i++ {
+			ls = append(ls, decl[boundary[rapid.IntRange(0, len(boundary)-1).Draw(t, "inrank")]%size])
+		}
+		opDesc = fmt.Sprintf("filter e in %q", ls)
+		cl := hx.Clause{Op: "leaf", Col: "e", Comp: "in", Arg: "list", LS: ls}
+		if ls == nil {
+			cl.LS = []string{}
+		}
+		cl = c17Combine(t, cl, ftab, &opDesc)
+		res := fq.Filter(cl.Build(hx.KindMap(ftab)))
+		if res.Err != nil {
+			t.Fatalf("filter failed: %v\n%s", res.Err, full())
+		}
+		var keep []int
+		for r := 0; r < ftab.N(); r++ {
+			if cl.Eval(ftab, r) {
+				keep = append(keep, r)
+			}
+		}
+		got, _ := hx.Observe(res)
+		if diff := hx.Diff(ftab.Rows(keep), got); diff != "" {
+			t.Fatalf("in-filter result differs from the model: %s\n%s", diff, full())
+		}
+	case "like":
+		pat := rapid.SampledFrom([]string{"v0%", "%7", "%12%", "v064", "V064", "v1.%", "%[0-3]", "v25%"}).Draw(t, "pattern")
+		comp := rapid.SampledFrom([]string{"like", "ilike"}).Draw(t, "likecomp")
+		opDesc = fmt.Sprintf("filter e %s %q", comp, pat)
+		cl := hx.StrConst("e", comp, pat)
+		cl = c17Combine(t, cl, ftab, &opDesc)
+		res := fq.Filter(cl.Build(hx.KindMap(ftab)))
+		if res.Err != nil {
+			t.Fatalf("filter failed: %v\n%s", res.Err, full())
+		}
+		var keep []int
+		for r := 0; r < ftab.N(); r++ {
+			if cl.Eval(ftab, r) {
+				keep = append(keep, r)
+			}
+		}
+		got, _ := hx.Observe(res)
+		if diff := hx.Diff(ftab.Rows(keep), got); diff != "" {
+			t.Fatalf("like-filter result differs from the model: %s\n%s", diff, full())
+		}
+	case "sort":
+		if !declared {
+			break // rank order of derived enums is unspecified
+		}
+		o := hx.Order{Col: "e", Reverse: rapid.Bool().Draw(t, "rev"), NullLast: rapid.Bool().Draw(t, "nulllast")}
+		// the column keeps its declared order through operations that rebuild it: as the key column of an
+		// Aggregate or Distinct result, as a copy, as the result of the ToUpper built-in
+		via := rapid.SampledFrom([]string{"direct", "direct", "aggregate-key", "distinct", "copy", "toupper"}).Draw(t, "sortvia")
+		src, srcDecl := qf, enumConf
+		switch via {
+		case "aggregate-key":
+			src = qf.GroupBy(groupby.Columns("e")).Aggregate(qframe.Aggregation{Fn: "min", Column: "id"}) // id stays a unique row identity
+		case "distinct":
+			src = qf.Distinct(groupby.Columns("e"))
+		case "copy":
+			src = qf.Copy("e2", "e").Drop("e").Copy("e", "e2").Drop("e2")
+		case "toupper":
+			src = qf.Apply(qframe.Instruction{Fn: "ToUpper", DstCol: "e", SrcCol1: "e"})
+			srcDecl = make([]string, len(enumConf))
+			for i, v := range enumConf {
+				srcDecl[i] = strings.ToUpper(v)
+			}
+		}
+		if src.Err != nil {
+			t.Fatalf("%s failed: %v\n%s", via, src.Err, full())
+		}
+		srcObs, err := hx.Observe(src)
+		if err != nil {
+			t.Fatal(err)
+		}
+		if ei := srcObs.Find("e"); ei >= 0 && srcObs.Cols[ei].Kind == hx.KEnum {
+			srcObs.Cols[ei].Enum = srcDecl
+		} else {
+			t.Fatalf("after %s the column e is no enum column any more\n%s", via, full())
+		}
+		tab := srcObs
+		opDesc = "sort " + o.String() + " via " + via
+		res := src.Sort(hx.BuildOrders([]hx.Order{o})...)
+		if res.Err != nil {
+			t.Fatalf("sort failed: %v\n%s", res.Err, full())
+		}
+		got, err := hx.Observe(res)
+		if err != nil {
+			t.Fatal(err)
+		}
+		if msg := checkSorted(tab, got, []hx.Order{o}); msg != "" {
+			t.Fatalf("sort on the enum column violates the declared order: %s\n%s", msg, full())
+		}
+		// a sorted frame whose key column is then overwritten by another enum column of the same declared list, sorted
+		// again by the same order: the new values decide, in declared order
+		if via == "direct" && n >= 2 && rapid.IntRange(0, 2).Draw(t, "resortenum") == 0 {
+			shift := rapid.IntRange(1, n-1).Draw(t, "resortshift")
+			other := make([]*string, n)
+			for r := range other {
+				other[r] = data[(r+shift)%n]
+			}
+			two := qframe.New(map[string]interface{}{"e": data, "f": other, "id": hx.Iota(n)}, newqf.Enums(map[string][]string{"e": enumConf, "f": enumConf}))
+			ro := hx.BuildOrders([]hx.Order{o})
+			changed := two.Sort(ro...).Copy("e", "f")
+			again := changed.Sort(ro...)
+			if two.Err != nil || again.Err != nil {
+				t.Fatalf("sort, overwrite the key, sort again: %v %v\n%s", two.Err, again.Err, full())
+			}
+			cobs, err1 := hx.Observe(changed)
+			aobs, err2 := hx.Observe(again)
+			if err1 != nil || err2 != nil {
+				t.Fatal(err1, err2)
+			}
+			for _, tb := range []*hx.Table{&cobs, &aobs} {
+				for i := range tb.Cols {
+					if tb.Cols[i].Kind == hx.KEnum {
+						tb.Cols[i].Enum = enumConf
+					}
+				}
+			}
+			if msg := checkSorted(cobs, aobs, []hx.Order{o}); msg != "" {
+				t.Fatalf("sorted, key column overwritten by Copy(e, f), sorted again by the same order: %s\n%s", msg, full())
+			}
+		}
+		// the view's Slice() tells the same as its ItemAt
+		if ev, err := res.EnumView("e"); err == nil {
+			sl := ev.Slice()
+			ec := got.MustCol("e")
+			if len(sl) != ec.Len() {
+				t.Fatalf("EnumView.Slice() has %d entries, the column %d\n%s", len(sl), ec.Len(), full())
+			}
+			for r := range sl {
+				if (sl[r] == nil) != (ec.S[r] == nil) || (sl[r] != nil && *sl[r] != *ec.S[r]) {
+					t.Fatalf("EnumView.Slice()[%d] = %s but ItemAt(%d) = %s\n%s", r, ptrStr(sl[r]), r, ptrStr(ec.S[r]), full())
+				}
+			}
+		}
+	}
+	high := false
+	for _, k := range ranks {
+		if k >= 64 {
+			high = true
+		}
+	}
+	// whatever was done above, the constructed frame still reads as constructed (no value reported as another string)
+	if after, err := hx.Observe(qf); err != nil || hx.Diff(wantT, after) != "" {
+		t.Fatalf("the frame no longer reads back as constructed after %s: %v %s\n%s", opDesc, err, hx.Diff(wantT, after), full())
+	}
+	nontrivial := (declared && size >= 64 && high) || (len(distinct) >= 254 && len(distinct) <= 257) || (size >= 254 && size <= 257)
+	evC17.Case(nontrivial, func() string { return full() }, "path:"+path, "op:"+op, fmt.Sprintf("declared=%v", declared), fmt.Sprintf("size=%d", size))
 }
 
 func minInt(a, b int) int {
